@@ -87,6 +87,10 @@ type c17Value struct {
 	orderCMap []byte
 	// an AFM text in which several glyph names claim the same character code
 	dupAFM []byte
+	// an AFM text whose glyph boxes are degenerate or inverted (finite numbers all
+	// the same): the font box written for it must not depend on the order in which
+	// the glyphs are visited
+	oddBoxAFM []byte
 	// font files that register more than one entry in the font directory
 	multiFont [][]byte
 	// histFont is a different font that some child processes write BEFORE they
@@ -199,6 +203,27 @@ func genC17Value(c *rt.C, quick bool) c17Value {
 	}
 	ab.WriteString("EndCharMetrics\nEndFontMetrics\n")
 	v.dupAFM = []byte(ab.String())
+	ab.Reset()
+	ab.WriteString("StartFontMetrics 4.1\nFontName OddBoxes\nStartCharMetrics 12\n")
+	oddSets := [][][4]int{
+		{{5, 0, 0, 0}, {0, 0, -3, 0}, {1, 1, 2, 2}, {3, 3, 4, 4}},
+		{{0, 0, -5, 0}, {0, 0, 0, -5}, {1, 1, 2, 2}},
+		{{2, 0, 0, 0}, {0, 3, 0, 0}, {0, 0, -4, 0}, {0, 0, 0, -1}, {7, 7, 9, 9}, {-9, -9, -8, -8}},
+	}
+	odd := oddSets[rng.IntN(len(oddSets))]
+	for i := 0; i < 12; i++ {
+		b := odd[i%len(odd)]
+		if i >= len(odd) {
+			// more boxes with zeros in them (a union that passes through the all-zero box is the point)
+			b = [4]int{(rng.IntN(3) - 1) * rng.IntN(6), (rng.IntN(3) - 1) * rng.IntN(6), (rng.IntN(3) - 1) * rng.IntN(6), (rng.IntN(3) - 1) * rng.IntN(6)}
+			if i%3 != 0 {
+				b = [4]int{0, 0, 0, 0}
+			}
+		}
+		fmt.Fprintf(&ab, "C %d ; WX %d ; N g%d ; B %d %d %d %d ;\n", 65+i, 500+i, i, b[0], b[1], b[2], b[3])
+	}
+	ab.WriteString("EndCharMetrics\nEndFontMetrics\n")
+	v.oddBoxAFM = []byte(ab.String())
 	// font files which register a second entry in the font directory: a
 	// re-encoded copy under the same /FontName, a copy with another /FontName,
 	// and the same dictionary under a second key. Whatever the reader makes of
@@ -272,6 +297,13 @@ func c17Digests(v c17Value) []string {
 		enc = strings.Join(m3.Encoding, ",")
 	}
 	out = append(out, fmt.Sprintf("afm.Read/duplicate-codes %s %s err=%v", metricsDigest(m3), sha([]byte(enc)), err))
+	if m4, err := afm.Read(bytes.NewReader(v.oddBoxAFM)); err != nil {
+		out = append(out, fmt.Sprintf("afm/odd-boxes err=%v", err))
+	} else {
+		buf.Reset()
+		werr := m4.Write(&buf)
+		out = append(out, fmt.Sprintf("afm/odd-boxes Write %s FontBBoxPDF %v err=%v", sha(buf.Bytes()), m4.FontBBoxPDF(), werr))
+	}
 	intp := postscript.NewInterpreter()
 	intp.MaxOps = 100000
 	err = intp.ExecuteString(v.orderProg)
